@@ -48,11 +48,17 @@ namespace foonathan
                 return alloc;
             }
         };
+        // a user's allocator with shared semantics (copies refer to the same state)
+        template <>
+        struct is_shared_allocator<cs::Leaf<true, false, 9>> : std::true_type
+        {
+        };
     } // namespace memory
 } // namespace foonathan
 
 namespace cs
 {
+    using LeafShared = Leaf<true, false, 9>;
     // element types: an int value padded to a size / alignment
     template <std::size_t Size, std::size_t Align>
     struct alignas(Align) Val
@@ -99,6 +105,41 @@ namespace cs
             return a.v < b.v;
         }
         friend bool operator==(const Short2& a, const Short2& b)
+        {
+            return a.v == b.v;
+        }
+        int get() const
+        {
+            return v;
+        }
+    };
+    // an element that owns something: every construction has to be matched by exactly one destruction
+    struct Owner
+    {
+        int v;
+        static long& live()
+        {
+            static long n = 0;
+            return n;
+        }
+        Owner(int x = 0) : v(x)
+        {
+            ++live();
+        }
+        Owner(const Owner& o) : v(o.v)
+        {
+            ++live();
+        }
+        Owner& operator=(const Owner&) = default;
+        ~Owner()
+        {
+            --live();
+        }
+        friend bool operator<(const Owner& a, const Owner& b)
+        {
+            return a.v < b.v;
+        }
+        friend bool operator==(const Owner& a, const Owner& b)
         {
             return a.v == b.v;
         }
